@@ -872,6 +872,14 @@ pub fn c06_cases(c: &Corpus, quick: bool) -> Vec<IoRun> {
         p.push(po(op));
         out.push(IoRun { pool: p, ..Default::default() });
     }
+    // sums over affine iterators of lengths around block sizes
+    for l in [0usize, 1, 2, 63, 64, 65, 129, 130, 131, 257] {
+        for by_ref in [false, true] {
+            let mut p = base.clone();
+            p.push(po(EOp::SumOfAffine((0..l).map(|i| i % 3).collect(), by_ref)));
+            out.push(IoRun { pool: p, ..Default::default() });
+        }
+    }
     // value() of gadget variables allocated from valid and invalid field elements (both allocation modes)
     {
         let f = fq();
